@@ -33,6 +33,7 @@ func runC10(p *Prog, r *Result) {
 	r.Rule("R10b", "every increment of openNodes/openBquotes/openBquoteDbls is followed by its decrement on every path to the exit", 4)
 	r.Rule("R10c", "every newLit() is followed on every path to the function exit by endLit(), litBs = nil, another newLit(), or an error report", 15)
 	r.Rule("R10e", "every Parser field is reset between parses or classified (shared with C08 R08a): state that feeds Incomplete or error positions cannot leak from an earlier parse", 40)
+	r.Rule("R10f", "parser bookkeeping slices (pending here-documents, stop words, …) are not truncated in place while a local saved from them is still read: a clobbered pending list turns into a spurious `unclosed here-document`", 3)
 	r.Rule("R10d", "fill() advances the offset base exactly once per call (the update is not on a cycle)", 1)
 
 	g := buildRefGraph(p)
@@ -133,6 +134,17 @@ func runC10(p *Prog, r *Result) {
 			}
 		}
 		r.Fatal = append(r.Fatal, sub.Fatal...)
+	}
+
+	// ---- R10f
+	{
+		parserT := lookupType(pkg, "Parser")
+		pst := parserT.Underlying().(*types.Struct)
+		isParserField := map[*types.Var]bool{}
+		for i := 0; i < pst.NumFields(); i++ {
+			isParserField[pst.Field(i)] = true
+		}
+		checkTruncationAliasing(p, r, pkg, "syntax", "R10f", func(fv *types.Var) bool { return isParserField[fv] })
 	}
 
 	// ---- R10c
@@ -240,6 +252,8 @@ func checkCountersRule(p *Prog, r *Result, pkg interface{ }, rule string) {
 }
 
 var c10Controls = []Control{
+	{Name: "pending-heredocs-truncated-under-alias", Rule: "R10f", WantKey: "doHeredocs#p.heredocs truncated", File: "syntax/parser.go",
+		Mutate: ctlReplaceAnywhere("\thdocs = slices.Clone(hdocs)\n", "")},
 	{Name: "second-parseerror-site", Rule: "R10a", WantKey: "ParseError#constructed in", File: "syntax/parser.go",
 		Mutate: ctlReplace("Parser.curErr", "p.posErr(p.pos, format, args...)", "p.errPass(ParseError{Filename: p.f.Name, Pos: p.pos, Text: fmt.Sprintf(format, args...)})", 0)},
 	{Name: "incomplete-ignores-eof", Rule: "R10a", WantKey: "posErr#Incomplete", File: "syntax/parser.go",
